@@ -105,7 +105,12 @@ func (p *Parser) parseHeader(data []byte) (header *parser.PacketHeader, buf []by
 		}
 
 		header.Namespace = string(data[:i])
-		data = data[i+1:]
+		if i == len(data) {
+			// No comma after the namespace: nothing follows it.
+			data = data[i:]
+		} else {
+			data = data[i+1:]
+		}
 	} else {
 		header.Namespace = "/"
 	}
